@@ -242,6 +242,10 @@ ADDENDA3 = {'C01': 'The default filters are exactly what initDefaultFilters retu
 for _k, _v in ADDENDA3.items():
     CHECKS[_k]["text"] += " " + _v
 
+ADDENDA4 = {'C09': 'The per-run memo of component locations holds the answer of the recursion for each base glyph.', 'C13': 'The per-run memo of component locations holds the answer of the recursion for each base glyph.', 'C11': 'No container defined on the post-processor class is written by its methods (names of one font do not depend on an earlier compile).', 'C19': 'No master is skipped or collected on the evidence of earlier iterations of the loop over the sources (order independence).'}
+for _k, _v in ADDENDA4.items():
+    CHECKS[_k]["text"] += " " + _v
+
 _TODO = "check not built yet in this session (static rules designed in DESIGN.md §5; will be claimed when the rule set is armed)"
 NOT_APPLICABLE = {}
 for _p in ["C01", "C02", "C04", "C05", "C06", "C07", "C08", "C09", "C10", "C11", "C12", "C13", "C14", "C15", "C16", "C17", "C18", "C19", "C20"]:
